@@ -92,6 +92,19 @@ theorem exitCheck_phase (l : LoopSt) :
 
 end Loop
 
+/-- Executable well-formedness check, sound for `WfCfg`. -/
+def wfCfgB (c : Cfg) : Bool :=
+  decide (1 ≤ c.N) &&
+    (List.range c.deps.length).all (fun j => (c.depsOf j).all (fun d => decide (d < j)))
+
+theorem wfCfg_of_b {c : Cfg} (h : wfCfgB c = true) : WfCfg c := by
+  simp only [wfCfgB, Bool.and_eq_true, decide_eq_true_eq, List.all_eq_true, List.mem_range] at h
+  refine ⟨h.1, ?_⟩
+  intro j d hd
+  by_cases hj : j < c.deps.length
+  · exact h.2 j hj d hd
+  · simp [Cfg.depsOf, List.getD_eq_getElem?_getD, List.getElem?_eq_none (Nat.le_of_not_lt hj)] at hd
+
 /-- Induction over reachable states. -/
 theorem run_induct {c : Cfg} (P : State → Prop)
     (hstep : ∀ s a s', P s → step c s a = some s' → P s') :
